@@ -71,6 +71,18 @@ def _boundary_cases():
                 out.append(("outage", [("net", "accept"), ("lat", 1), ("blockfirst", 1), ("open",), ("send", 1, "ok", "idem"), ("send", 2, "ok", "conn"),
                                        ("send", 3, "ok", pol), ("send", 4, "ok", "idem"), ("adv", 1 + wait)]
                             + [("send", 5 + i, "ok", "idem") for i in range(later)] + [("turn", 2), ("blockfirst", 0), ("block", 0), ("adv", 16)]))
+    # the same loss noticed by TWO parties - the sender whose flush is held up and the read loop - while the application's connection
+    # callback takes a few loop passes: the command (retries left) goes out again on the new connection, before anything newer
+    for slow in (0, 1, 3, 6):
+        for k in (0, 1, 2, 4):
+            for fail in ("reset", "timeout", "eof"):
+                out.append(("faults", [("net", "accept"), ("subslow", slow), ("open",), ("adv", 8), ("block", 1), ("send", 1, "ok", "idem"), ("turn", k),
+                                       ("peer", fail), ("turn", 2), ("send", 2, "ok", "idem"), ("adv", 40), ("heal",)]))
+    for slow in (1, 2, 3, 6):
+        for kind in (0, 1, 2):
+            for k in (0, 1, 2, 3, 5):
+                out.append(("faults", [("net", "accept"), ("subslow", slow), ("open",), ("adv", 8), ("turn", 3), ("failw", 1, kind), ("send", 1, "ok", "idem"), ("turn", k),
+                                       ("send", 2, "ok", "idem"), ("adv", 40), ("heal",)]))
     # peer reset while a drain is blocked, entry with / without retries
     for pol in ("idem", "nonidem"):
         out.append(("faults", [("net", "accept"), ("open",), ("adv", 8), ("block", 1), ("send", 1, "ok", pol), ("turn", 2),
